@@ -221,7 +221,7 @@ func c12Run(co *caseOut, kind, tag string, in c12Input) {
 	script := in.script()
 	if len(in.Scripts) == 0 && kind != "gas" {
 		c12SweepCount++
-		if c12SweepCount%12 == 0 { // the gas limit at its boundary values (c12gas.go)
+		if c12SweepCount%20 == 0 { // the gas limit at its boundary values (c12gas.go)
 			c12GasSweep(co, script)
 		}
 	}
@@ -847,6 +847,14 @@ func runC12(args []string) error {
 			base, limit = 300000, int64(30*(20+r.intn(3000)))
 		}
 		c12Run(co, "deep", "gen", c12Input{Ops: c12HexOps(ops), Base: base, Limit: limit})
+	}
+	// catchable failure paths with compound operands, in a loop
+	nloop := 60
+	if n >= 1000 {
+		nloop = 400
+	}
+	for _, in := range c12CatchLoops(nloop) {
+		c12Run(co, "deep", "catch-loop", in)
 	}
 	// gas charged by a SYSCALL handler at the boundary of the limit; a few fixed scripts under limit 0
 	c12SyscallGas(co)
